@@ -1044,16 +1044,16 @@ def phases(kind: str, thorough: bool) -> List[Dict[str, Any]]:
     """cap = schedules per exploration depth; a phase runs at most cap * (bound + 1) schedules"""
     pb = 3 if thorough else 2
     if kind == "reg":
-        return [{"gran": "op", "bound": pb, "cap": 300 if thorough else 100, "random": 0},
-                {"gran": "line", "bound": pb, "cap": 600 if thorough else 120, "random": 50 if thorough else 10},
-                {"gran": "opcode", "bound": pb, "cap": 1500 if thorough else 200, "random": 300 if thorough else 30}]
+        return [{"gran": "op", "bound": pb, "cap": 300 if thorough else 80, "random": 0},
+                {"gran": "line", "bound": pb, "cap": 600 if thorough else 100, "random": 50 if thorough else 10},
+                {"gran": "opcode", "bound": pb, "cap": 1500 if thorough else 150, "random": 300 if thorough else 30}]
     if kind == "ctx":
-        return [{"gran": "op", "bound": pb, "cap": 600 if thorough else 120, "random": 0},
-                {"gran": "line", "bound": pb, "cap": 700 if thorough else 100, "random": 100 if thorough else 20},
-                {"gran": "opcode", "bound": pb, "cap": 700 if thorough else 100, "random": 300 if thorough else 20}]
-    return [{"gran": "op", "bound": pb, "cap": 300 if thorough else 60, "random": 0},
-            {"gran": "line", "bound": pb, "cap": 600 if thorough else 70, "random": 100 if thorough else 20},
-            {"gran": "opcode", "bound": pb, "cap": 700 if thorough else 70, "random": 200 if thorough else 20}]
+        return [{"gran": "op", "bound": pb, "cap": 600 if thorough else 100, "random": 0},
+                {"gran": "line", "bound": pb, "cap": 700 if thorough else 80, "random": 100 if thorough else 20},
+                {"gran": "opcode", "bound": pb, "cap": 700 if thorough else 80, "random": 300 if thorough else 20}]
+    return [{"gran": "op", "bound": pb, "cap": 300 if thorough else 50, "random": 0},
+            {"gran": "line", "bound": pb, "cap": 600 if thorough else 50, "random": 100 if thorough else 15},
+            {"gran": "opcode", "bound": pb, "cap": 700 if thorough else 50, "random": 200 if thorough else 15}]
 
 
 def classify(payload: Dict[str, Any]) -> Optional[str]:
